@@ -519,6 +519,40 @@ def f0():
 """ % s}, ["h", "h2", "h3"]
 
 
+def T_calls_in_callee(s):
+    """calls and references inside the expression of the function that is called: Cls(helper()).method(...),
+    combine(f, g)(...), str(helper()).upper()"""
+    return {"main": HEAD + """
+class Scaler(object):
+    def __init__(self, p):
+        self.p = p
+
+    def apply(self, x):
+        return term('apply#%(ap)d', self.p, x)
+
+def params():
+    return term('params#%(pa)d')
+
+def double():
+    return term('double#%(db)d')
+
+def inc():
+    return term('inc#%(ic)d')
+
+def compose(f, g):
+    return lambda: term('compose#%(cp)d', f(), g())
+
+def f1():
+    a = Scaler(params()).apply(10)
+    b = compose(double, inc)()
+    c = str(params()).upper()
+    return term('f1', a, b, c)
+
+def f0():
+    return dds.keep('/x/p', f1)
+""" % s}, ["ap", "pa", "db", "ic", "cp"]
+
+
 # explicit refusals of dds (DDSException with one of these codes): the construct is outside the supported subset
 REFUSALS = ("TYPE_NOT_SUPPORTED", "CONSTRUCT_NOT_SUPPORTED", "UNSUPPORTED_CALLABLE_TYPE", "AUTHORIZED_TYPE_NOT_UNDERSTOOD")
 
@@ -527,7 +561,7 @@ TEMPLATES = [T_class_fresh, T_class_object_first, T_inheritance, T_staticmethod,
              T_class_attribute_from_variable, T_init_calls_function, T_from_import_variable, T_class_in_submodule,
              T_generator_and_conditional_expression, T_function_as_default_argument, T_reexport_and_relative_imports,
              T_object_attribute_holds_object, T_variables_of_library_types, T_argument_expressions,
-             T_references_through_attributes, T_calls_in_arguments, T_functools_wrappers]
+             T_references_through_attributes, T_calls_in_arguments, T_functools_wrappers, T_calls_in_callee]
 # T_module_level_lambda is not in the list: a lambda bound to a module variable is refused with an uncoded DDSException
 # ('Could not find call node'): outside the supported subset (the test-suite marks lambdas under dds.eval as not implemented)
 
